@@ -28,7 +28,7 @@ type c03Case struct {
 }
 
 var c03Vocab = []c03Tok{
-	{0, "a", true}, {0, "b=1", true}, {0, "7", true},
+	{0, "a", true}, {0, "b=1", true}, {0, "7", true}, {0, "eval", true},
 	{0, "!", true}, {0, "{", true}, {0, "}", true}, {0, "for", true}, {0, "case", true}, {0, "esac", true}, {0, "in", true}, {0, "if", true}, {0, "elif", true}, {0, "then", true}, {0, "else", true}, {0, "fi", true}, {0, "while", true}, {0, "until", true}, {0, "do", true}, {0, "done", true},
 	{1, "&", false}, {1, "&&", false}, {1, "(", false}, {1, ")", false}, {1, ";", false}, {1, ";;", false}, {1, "|", false}, {1, "||", false},
 	{1, "<", false}, {1, ">", false}, {1, ">>", false}, {1, "<&", false}, {1, ">|", false},
@@ -378,7 +378,7 @@ func init() {
 		ID:          "C03",
 		Level:       "exploration",
 		Technique:   "runtime monitoring: differential oracle (independent recursive-descent recogniser on token sequences) for accept/reject, plus an intrinsic check of the returned parser.Error (type, Name, position at a token / construct start inside the source)",
-		Rule:        "a case is a token sequence rendered with single blanks: every string of <=4 tokens over a 35-token vocabulary (word, assignment word, number word, the 16 reserved words, 13 operators, newline, \"$(\" and a backquote as tokens of their own), every string of 5-6 (thorough 5-7) tokens over the 9-token bracketing sub-vocabulary (a ( ) $( ` ; { } newline) — thorough adds a 3e6 sample of length 5-7 — and, for 1500 (thorough 40000) generated programs without here-documents: the program itself, every single-token deletion, duplication, adjacent swap, truncation at every token boundary, and two damage tokens (of ) } fi done esac then do ;; | && ( {) inserted at every boundary. The recogniser classifies the first complete command valid / invalid / incomplete / unsure (skipped). distinct_nontrivial = distinct (mutation kind, error message) pairs observed.",
+		Rule:        "a case is a token sequence rendered with single blanks: every string of <=4 tokens over a 36-token vocabulary (word, assignment word, number word, the name of a special built-in, the 16 reserved words, 13 operators, newline, \"$(\" and a backquote as tokens of their own), every string of 5-6 (thorough 5-7) tokens over the 9-token bracketing sub-vocabulary (a ( ) $( ` ; { } newline) — thorough adds a 3e6 sample of length 5-7 — and, for 1500 (thorough 40000) generated programs without here-documents: the program itself, every single-token deletion, duplication, adjacent swap, truncation at every token boundary, and two damage tokens (of ) } fi done esac then do ;; | && ( {) inserted at every boundary. The recogniser classifies the first complete command valid / invalid / incomplete / unsure (skipped). distinct_nontrivial = distinct (mutation kind, error message) pairs observed.",
 		Assumptions: []string{"the recogniser follows XCU 2.10.2 with go.sh's pinned dialect; a reserved word directly after a redirection of a compound command, and here-document operators, are 'unsure' and skipped", "the message text is not judged"},
 		Gen:         c03Gen,
 		Replay:      func(c *core.Ctx, raw []byte) { core.ReplayOne(c, raw, c03Exec) },
